@@ -178,6 +178,7 @@ func GenImports(r *rng.R, cfg Cfg, skeletonLike bool) []Imp {
 		{"bind", "/nonexistent/src", "/mnt/missing"},
 		{"tmpfs", "tmpfs", "/tmp/scratch"},
 		{"rbind", "/run", "/run"},
+		{"bind", "/run", "/run"}, // a plain bind of a host tree that needs the slave propagation all the same
 		{"bind", cfg.Base + "/host/repos", "/mnt/../mnt/repos2"},
 		// bytes that mean something to a formatter, a shell or a glob but nothing to layercake
 		{"bind", cfg.Base + "/host/100%sure", "/mnt/50%"},
